@@ -25,6 +25,8 @@ func init() {
 	props["C15"] = &prop{gen: genC15, eval: evalC15, timeout: 20 * time.Second}
 }
 
+var c15LongLived dictionary.Parser
+
 func evalC15(op string, args []string) string {
 	if op == "walkfs" {
 		return evalC15FS(args, false)
@@ -52,7 +54,16 @@ func evalC15(op string, args []string) string {
 		}
 	}
 	root := string(unhx(args[1]))
-	p := dictionary.Parser{Opener: o, IgnoreIdenticalAttributes: args[2] == "1"}
+	p := &dictionary.Parser{Opener: o, IgnoreIdenticalAttributes: args[2] == "1"}
+	// one case in three is parsed by a Parser value that lives as long as this process and has seen every earlier
+	// such case - the hundreds of walks before this one, most of them refused somewhere, must not show
+	if h := fnv.New32a(); true {
+		h.Write([]byte(args[1] + args[0]))
+		if h.Sum32()%3 == 0 {
+			c15LongLived.Opener, c15LongLived.IgnoreIdenticalAttributes = o, args[2] == "1"
+			p = &c15LongLived
+		}
+	}
 	// history: a Parser value is reusable, and what an earlier walk did (completed or refused at any
 	// depth) must not show in a later one.  For every second case the same Parser first walks from every
 	// file of the file system as root (results ignored); the observed walk starts with a clean trace.
